@@ -66,7 +66,7 @@ var (
 	c05Verdict bool
 )
 
-//verif:stub github.com/google/certificate-transparency-go/tls.VerifySignature files=signatures.go
+//verif:stub github.com/google/certificate-transparency-go/tls.VerifySignature files=*
 func c05TLSVerify(pub crypto.PublicKey, data []byte, sig tls.DigitallySigned) error {
 	c05Calls++
 	c05Key, c05Data, c05Sig = pub, data, sig
